@@ -381,6 +381,7 @@ func TestVerifC11Rendezvous(t *testing.T) {
 		t.Skip("VERIF_C11_CASES / VERIF_C11_OUT not set")
 	}
 	seed, _ := strconv.ParseUint(os.Getenv("VERIF_SEED"), 10, 64)
+	base, _ := strconv.Atoi(os.Getenv("VERIF_IDX_BASE")) // replay of a single case: its original index
 	log.SetOutput(ioutil.Discard)
 	f, err := os.Open(in)
 	if err != nil {
@@ -435,7 +436,7 @@ func TestVerifC11Rendezvous(t *testing.T) {
 							put(verifC11Result{Idx: i, Sig: sig, Detail: msg + "\n" + string(debug.Stack()), Case: c})
 						}
 					}()
-					if verifC11One(cases[i], i, seed, func(r verifC11Result) { put(r) }) {
+					if verifC11One(cases[i], base+i, seed, func(r verifC11Result) { put(r) }) {
 						mu.Lock()
 						nontrivial++
 						mu.Unlock()
